@@ -323,6 +323,12 @@ func runC07(c *lib.Ctx) error {
 		return replayC07(c)
 	}
 	rb := startRaceBuild(c)
+	burstRounds := 4
+	if c.Thorough() {
+		burstRounds = 25
+	}
+	burstCh := make(chan burstResult, 1)
+	go func() { burstCh <- limiterBurst(burstRounds) }()
 	nInst := 2
 	if c.Thorough() {
 		nInst = 12
@@ -344,6 +350,15 @@ func runC07(c *lib.Ctx) error {
 		return err
 	}
 	nr := racePart(c, rb)
+	br := <-burstCh
+	if br.err != nil {
+		return br.err
+	}
+	for _, f := range br.fails {
+		c.Fail(f.Case, f.Key, f.What, f.Input)
+	}
+	c.Count(fmt.Sprintf("limiter-burst-rounds:%d", burstRounds))
+	n += br.n
 	c.Res.Evaluations = n + nl + nr
 	c.Res.DistinctNontrivial = distinct
 	c.Res.Rule = "history: for one target request of every family (MPD in the three addressing modes, multi-period, thumbnails, init, video/audio/subtitle media by number and time, chunked, ECCP, every DRM package of the bundled configuration, generated subtitles, patch) and every neighbour kind (each other value of each option family, other instants, failing variants, repeats, sibling representation/asset, /patch and /urlgen forms): neighbours then target on a long-lived instance, sequentially and from 8 goroutines, answer compared with a fresh process asked the target only. mix: every MPD/init/media/patch URL over the bundled assets (option sets incl. SegmentTimeline, periods, patch, DRM, low-latency chunks, generated subtitles, SCTE-35; newest and older segments at several instants) served by a fresh server, then twice in shuffled order from 16 goroutines by the same server, by a second fresh server and by a cache-loaded server: (status, content type, body) compared per URL. lookup: generated vodroots with nested/prefix-related asset paths and representation ids contained in each other, each URL 2x25 times on fresh servers, answering object compared with the Coq model. race: the mix and the ingest API under the Go race detector. distinct = distinct (vodroot, URL) look-up cases plus distinct mix URLs; non-trivial = answered 200"
@@ -356,6 +371,15 @@ func replayC07(c *lib.Ctx) error {
 		return err
 	}
 	switch in.Kind {
+	case "limiter-burst":
+		br := limiterBurst(int(in.Seed))
+		if br.err != nil {
+			return br.err
+		}
+		for _, f := range br.fails {
+			c.Fail("replay", f.Key, f.What, f.Input)
+			fmt.Printf("replay C07: %s: %s\n", f.Key, f.What)
+		}
 	case "history":
 		if in.History == nil {
 			return fmt.Errorf("replay: no history")
